@@ -668,14 +668,16 @@ fn encode_genotype_str(genotype: &str) -> io::Result<Vec<i8>> {
     }
 
     fn encode(s: &str, phasing: &str) -> io::Result<i8> {
+        let is_phased = phasing == "|";
+
+        // A missing allele keeps its phase bit: `./.` = [0, 0], `.|.` = [0, 1].
         if s == MISSING_ALLELE {
-            return Ok(0);
+            return Ok(i8::from(is_phased));
         }
 
         let j: i8 = s
             .parse()
             .map_err(|e| io::Error::new(io::ErrorKind::InvalidInput, e))?;
-        let is_phased = phasing == "|";
 
         let mut i = (j + 1) << 1;
 
@@ -708,7 +710,8 @@ fn encode_genotype(genotype: &dyn Genotype) -> io::Result<Vec<i8>> {
         let i = if let Some(position) = position {
             i8::try_from(position).map_err(|e| io::Error::new(io::ErrorKind::InvalidData, e))?
         } else {
-            return Ok(0);
+            // A missing allele keeps its phase bit.
+            return Ok(i8::from(phasing == Phasing::Phased));
         };
 
         let mut n = (i + 1) << 1;
